@@ -18,6 +18,7 @@ mod pathnorm;
 mod prog;
 mod jsonmap;
 mod instances;
+mod ffireplay;
 
 fn main() {
     let args: Vec<String> = std::env::args().collect();
@@ -37,6 +38,7 @@ fn main() {
         "prog" => prog::main(&rest),
         "jsonmap" => jsonmap::main(&rest),
         "instances" => instances::main(&rest),
+        "ffireplay" => ffireplay::main(&rest),
         "modules" => modules::main(&rest),
         "orders" => orders::main(&rest),
         "gcmiri" => gcmiri::main(&rest),
